@@ -83,6 +83,14 @@ def main():
                                             "order": [rnd.choice(["r1", "r2", "u"]) for _ in range(rnd.randint(3, 10))]}))
                 ops = rnd.sample(ALL_OPS, 4)
                 blocks.append(("free", {"procs": {"p%d" % i: ops[i] for i in range(4)}, "order": []}))
+            # position cache invalidated (level-0 retention) right before the block: a status query recomputes the position
+            # from disk while syncs run
+            for sop in (["syncdb"], ["dbsync"], ["syncwait"]):
+                for k in ((7, 10) if not thorough else (5, 6, 7, 8, 9, 10, 12)):
+                    # the status query reaches its recomputation first, the sync then runs to completion, the query returns
+                    blocks.append(("poscache", {"procs": {"q": ["status"], "s": sop}, "order": ["q"] + ["s"] * k + ["q"] * 3}))
+                    blocks.append(("poscache", {"procs": {"q": ["status"], "s": sop, "w": ["appwrite", 2]},
+                                                "order": ["q", "s", "s", "w"] + [rnd.choice(["s", "s", "q"]) for _ in range(k)] + ["q", "q"]}))
             blocks.append(("witness:Z1", {"procs": {"a": ["syncdb"], "b": ["disable"]}, "order": ["a"] + ["b"] * 7 + ["a"] * 6}))
             seen = set()
             for label, b in blocks:
@@ -93,7 +101,10 @@ def main():
                 i = len(cases)
                 cfg = corelib.mk_cfg(seed * 100003 + i, page_size=[4096, 512][i % 2], rows=6, init_ckpt=True, audit=True,
                                      min_pg=[1000, 3][i % 2 if label == "random" else 0])
-                cases.append({"id": i, "cfg": cfg, "sched": PREFIX + [["Par", b]] + SUFFIX, "label": label})
+                pre = PREFIX
+                if label == "poscache":
+                    pre = PREFIX + [["LsSyncAndWait"], ["Compact", 1], ["AppWrite", 1], ["LsSyncAndWait"], ["L0Retention", 9], ["AppWrite", 3]]
+                cases.append({"id": i, "cfg": cfg, "sched": pre + [["Par", b]] + SUFFIX, "label": label})
         by_id = {c["id"]: c for c in cases}
         t0 = time.time()
         out, info = corelib.run_cases(binary, wd, "cases", [{k: c[k] for k in ("id", "cfg", "sched")} for c in cases], j=8)
@@ -118,7 +129,7 @@ def main():
                            "parked at hooks in alternation (>= 2 switches)")
         for c in cases[:2] + [c for c in cases if c["label"] == "random"][:1]:
             evs = events.get(c["id"], [])
-            rep.sample({"source": c["label"], "block": c["sched"][len(PREFIX)][1],
+            rep.sample({"source": c["label"], "block": c["sched"][[k for k, st in enumerate(c["sched"]) if st[0] == "Par"][0]][1],
                         "observed": [[e["op"], e["arg"], e["res"][:40], e["open"], e["hasRead"]] for e in evs if e["op"].startswith("Par")][:30]})
         corelib.classify(rep, PROP, by_id, events, verdicts, hazards, set(INV), PROP)
 
